@@ -247,6 +247,7 @@ def check_unit(spec_path, do_twins=True, keep=True):
             res["closures"][it["label"]] = len(rsx.unannotated_closures("\n".join(glines[a - 1:b])))
         except Exception:
             res["closures"][it["label"]] = 0
+    res["lost_loop_items"] = [it["label"] for it in meta["items"] if any(e.get("kind") == "lost-loop" for e in it["edits"])]
     for it in meta["items"]:
         res["items"].append({"file": it["relpath"], "path": it["path"], "fn": it["fn"],
                              "src_lines": it["src_lines"], "contracted": it["contracted"],
